@@ -261,6 +261,28 @@ func c02(c *ctx) {
 				"out": vh.Ints(db.Bytes()), "callerIntact": true})
 		}
 	}
+	// single writes larger than the pooled scratch classes (the copy must still be a copy)
+	for _, ln := range []int{65535, 65536, 65537, 65538, 70001, 131075} {
+		key := fmt.Sprintf("cwriterbig/%d", ln)
+		if !vh.Only(key) {
+			continue
+		}
+		p := vh.PBytes(7, 0, ln)
+		caller := append([]byte(nil), p...)
+		k := [4]byte{0x5a, 0x01, 0xff, 0x80}
+		var db bytes.Buffer
+		cw := wsutil.NewCipherWriter(&db, k)
+		cw.Write(caller)
+		cw.Write(caller[:5])
+		got := db.Bytes()
+		want := append(append([]byte(nil), p...), p[:5]...)
+		for i := range want {
+			want[i] ^= k[i%4]
+		}
+		// (too long for the TLA+ judge to mask byte by byte: compared here, the verdict is what is logged)
+		emit(map[string]interface{}{"k": "big", "key": key, "len": ln, "outOK": bytes.Equal(got, want), "callerIntact": bytes.Equal(caller, p)})
+		shapes.Add("cwriterbig/%d", ln)
+	}
 	// frame helpers
 	apis := []string{"MaskFrame", "MaskFrameWith", "MaskFrameInPlace", "MaskFrameInPlaceWith", "UnmaskFrame", "UnmaskFrameInPlace"}
 	for ln := 0; ln <= 40; ln++ {
